@@ -37,7 +37,7 @@ theorem Step.owns {h h' : Heap} {o o' : Obj} (st : Step h o h' o') (ow : Owns h 
   have := b2n_le_one (h.live k)
   omega
 
-theorem Step.trans {h h' h'' : Heap} {o o' o'' : Obj} (ow : Owns h o) (s1 : Step h o h' o') (s2 : Step h' o' h'' o'') :
+theorem Step.trans {h h' h'' : Heap} {o o' o'' : Obj} (s1 : Step h o h' o') (s2 : Step h' o' h'' o'') :
     Step h o h'' o'' := by
   refine ⟨s2.hok, s2.ok, ?_, ?_, Nat.le_trans s1.mono s2.mono⟩
   · intro k
